@@ -16,7 +16,7 @@ def main():
     def run(f):
         spec = json.load(open(f))
         p = subprocess.run([os.path.join(here, 'bin', 'notacheck'), '-property', pid, '-tier', 'quick', '-repo', repo,
-                            '-overlay', f, '-no-evidence', '-json'], capture_output=True, text=True)
+                            '-overlay', f, '-no-evidence', '-json'], capture_output=True, text=True, errors='replace')
         keys = []
         for line in p.stdout.splitlines():
             if line.startswith('JSON '):
